@@ -1515,7 +1515,7 @@ PyObject* Records::read_sfile_header(void)
     // go back to the beginning
     rewind(mFptr);
 
-	char endbuff[4]={0};
+	char endbuff[6]={0};
     size_t count=0;
 
 	while (1) {
@@ -1529,19 +1529,21 @@ PyObject* Records::read_sfile_header(void)
 
         endbuff[0] = endbuff[1];
         endbuff[1] = endbuff[2];
+        endbuff[2] = endbuff[3];
+        endbuff[3] = endbuff[4];
 
-        endbuff[2] = c;
+        endbuff[4] = c;
 
-        if (0==strncmp(endbuff,"END",3)) {
+        // the header ends with a line holding only END; the letters can
+        // also occur inside keys, values and field names
+        if (0==strncmp(endbuff,"\nEND\n",5)) {
             break;
         }
     }
 
-    // we need to add
-    // 1 for the newline character
-    // 1 for the empty line
+    // we have read the newline after END, add 1 for the empty line
 
-    count += 2;
+    count += 1;
 
     string hdr;
     hdr.resize(count);
